@@ -109,7 +109,12 @@ class SyntaxParser:
 		Raises:
 			Errors.Syntax: パースに失敗(最初のトークンに未到達)
 		"""
-		tokens = self.tokenizer.parse(source)
+		try:
+			tokens = self.tokenizer.parse(source)
+		except Exception as e:
+			# 字句解析できない文字(バックスラッシュ、非ASCII文字など)や末尾の記号による内部エラーも、シンタックスエラーとして扱う
+			raise Errors.Syntax(f'Tokenize failed. cause: {e.__class__.__name__}({e})') from e
+
 		length = len(tokens)
 		self.monitor.start(tokens)
 		step, entry = self._match_symbol(tokens, Context.start(), entrypoint)
